@@ -40,9 +40,11 @@ type checkDef struct {
 // extraPart is an additional group of workers from another engine package whose
 // partial results are merged into the same verdict and evidence.
 type extraPart struct {
-	Pkg string
-	N   int
-	Env []string
+	Pkg     string
+	N       int
+	Env     []string
+	Flags   []string // extra build flags (e.g. -trimpath); the binary gets its own name
+	Overlay bool     // build with the instrumentation overlay
 }
 
 var defs = map[string]checkDef{
@@ -57,7 +59,8 @@ var defs = map[string]checkDef{
 	"C10": {Engine: "B", Pkg: "./engb", MinEvals: 100},
 	"C20": {Engine: "B", Pkg: "./engb", MinEvals: 100},
 	"C11": {Engine: "B", Pkg: "./engb", MinEvals: 100},
-	"C06": {Engine: "C", Pkg: "./engc", MinEvals: 300, Overlay: true, RacePart: true, RaceN: 8},
+	"C06": {Engine: "C", Pkg: "./engc", MinEvals: 300, Overlay: true, RacePart: true, RaceN: 8,
+		Extra: []extraPart{{Pkg: "./engc", N: 4, Env: []string{"VERIF_PART=trim"}, Flags: []string{"-trimpath"}, Overlay: true}}},
 	"C12": {Engine: "A", Pkg: "./enga", MinEvals: 80000, RacePart: true, RaceN: 4, Extra: []extraPart{{Pkg: "./engb", N: 2, Env: []string{"VERIF_PART=defaults"}}}},
 	"C14": {Engine: "A", Pkg: "./enga", MinEvals: 1000, RacePart: true, RaceN: 4},
 	"C15": {Engine: "A", Pkg: "./enga", MinEvals: 1000},
@@ -81,13 +84,18 @@ func goEnv() []string {
 	return env
 }
 
-func build(def checkDef, race bool) (string, error) {
+func build(def checkDef, race bool, flags ...string) (string, error) {
 	name := strings.TrimPrefix(def.Pkg, "./")
 	out := filepath.Join(home, ".build", name+".test")
 	args := []string{"test", "-c", "-tags", "verif", "-vet=off", "-o", out}
 	if race {
 		out = filepath.Join(home, ".build", name+".race.test")
 		args = []string{"test", "-c", "-race", "-tags", "verif", "-vet=off", "-o", out}
+	}
+	if len(flags) > 0 {
+		out = filepath.Join(home, ".build", name+"."+strings.Trim(strings.Join(flags, ""), "-")+".test")
+		args = append([]string{"test", "-c", "-tags", "verif", "-vet=off"}, flags...)
+		args = append(args, "-o", out)
 	}
 	os.MkdirAll(filepath.Join(home, ".build"), 0o755)
 	if alt := os.Getenv("VERIF_REPO"); alt != "" && alt != "/repo" {
@@ -102,7 +110,11 @@ func build(def checkDef, race bool) (string, error) {
 		sum, _ := os.ReadFile(filepath.Join(home, "harness", "go.sum"))
 		os.WriteFile(filepath.Join(home, ".build", "alt-"+tag+".sum"), sum, 0o644)
 		out = strings.TrimSuffix(out, ".test") + "." + tag + ".test"
-		args[len(args)-1] = out
+		for k := range args {
+			if args[k] == "-o" {
+				args[k+1] = out
+			}
+		}
 		args = append(args, "-modfile="+altMod)
 	}
 	if def.Overlay {
@@ -364,8 +376,8 @@ func run(prop, tier string, seed int64, onlyCase int, writeEvidence bool) int {
 	if onlyCase < 0 {
 		for _, x := range def.Extra {
 			xd := def
-			xd.Pkg, xd.Overlay = x.Pkg, false
-			xbin, err := build(xd, false)
+			xd.Pkg, xd.Overlay = x.Pkg, x.Overlay
+			xbin, err := build(xd, false, x.Flags...)
 			if err != nil {
 				fmt.Println(err)
 				die(2, "INCONCLUSIVE property=%s build of %s failed", prop, x.Pkg)
